@@ -5,6 +5,8 @@ CONSTANTS
   Bondeds = {}
   Coeffs = {}
   MaxDists = {}
+  MaxAbs = {}
+  MaxDenoms = {}
   ExtDeltas = {}
   InitSupply = "0"
   MaxLen = 0
